@@ -144,6 +144,8 @@ class Instance:
         pins = self.spec.get("pins")
         if pins and name in pins:
             return self.eng.sym_int(name, pins[name], pins[name])
+        if isinstance(self.real, str) and self.real.startswith("dec"):
+            return self.eng.sym_decimal(name, lo, hi, int(self.real[3:]))
         if self.real:
             return self.eng.sym_real(name, lo, hi)
         return self.eng.sym_int(name, lo, hi)
